@@ -17,7 +17,7 @@ pub static PROP: Prop = Prop {
     rule: "cases = (input, list incl. lists fitted around the needed size, mode subset) given to data::encodation_plan and data::encode_data(.., None, modes, false); oracle = encodable => plan is Some; plan names only enabled modes; positions never increase, are <= len and end at 0; the non-ASCII modes with >= 1 assigned character (adjacent equal entries merged) equal the latch list the reference decoder finds in the encoder's output, in order; capacity(symbol used) <= capacity(first listed symbol >= written + cost of the plan selected by the planner (hook H1)); non-trivial = plan has >= 1 switch to a non-ASCII mode; distinct by (input, configuration)",
     assumptions: &["hook H1 reports the cost (whole codewords) of the plan selected by the last optimize() call on the calling thread", "not asserted: that a plan implies encodability, nor equality of predicted and actual length"],
     extra: super::no_extra,
-    fuzz_runs: 50000,
+    fuzz_runs: 200000,
 };
 
 pub fn check(c: &EncCase) -> Verdict {
